@@ -27,7 +27,7 @@ import shlex
 from vlib import VERIF
 
 MODULE = "Fv.Props.C16Conc"            # imports Fv.Props.CacheConc
-EXTRA_MODULES = ("Fv.Props.C11Conc", "Fv.Props.C13Conc", "Fv.Props.C12Conc")
+EXTRA_MODULES = ("Fv.Props.C11Conc", "Fv.Props.C13Conc", "Fv.Props.C12Conc", "Fv.Props.CacheConcAsync")
 
 
 def _read(name):
